@@ -13,8 +13,8 @@ def check(tree, rep, tier='quick', seed=0):
                        'forms that is filled is derived from self.forms by the needs_filing filter, ordered by (jurisdiction, sequence_no) and '
                        'walked once (K23b); worksheets and input forms have a constant-False needs_filing and filing forms are sortable (class '
                        'rules over the catalogue); TextPDFField/ChoicePDFField raise instead of truncating and no handler on the fill call path '
-                       'catches those exceptions (K23c).')
-    rep.rule_text = 'obligation = one rule instance (K23a K23b K23c) on one construct, plus one per (year, form class) for the needs_filing class rules'
+                       'catches those exceptions (K23c); no value function of a text box slices the text it is handed (R19.7) and every sequence number is an integer, compared as such (R19.8, K23b).')
+    rep.rule_text = 'obligation = one rule instance (K23a K23b K23c) on one construct, plus one per (year, form class) for the needs_filing class rules, one per value function of a text box (R19.7) and one per filed form (R19.8)'
     rep.exhaustive = True
     rep.assumptions = ['NOT decided: what pdftk does with the form data; non-ASCII text']
     core = get_core(tree)
@@ -38,5 +38,57 @@ def check(tree, rep, tier='quick', seed=0):
                 rep.ob('K23b', key + '/unique-position', k not in seen,
                        f'{cls.name} and {seen.get(k)} share (jurisdiction, sequence_no) = {k}: their relative order in the output is arbitrary', fr.where)
                 seen.setdefault(k, cls.name)
+    # ---- R19.7 no value function of a text box cuts the text it is handed (that would truncate instead of refusing);
+    #      sequence numbers are numbers, so that the order is the attachment order and not a text order
+    from ..lines import get_analysis
+    from ..lineabs import E
+    an = get_analysis(tree)
+    n_vf = 0
+    for d in an.pdfs:
+        if d.rec.cls.name != 'TextPDFField':
+            continue
+        n_vf += 1
+        cuts = []
+        for p in d.paths:
+            if p.outcome.kind == 'ret':
+                _find_cuts(p.outcome.value, cuts)
+        rep.ob('R19.7', d.key, not cuts,
+               f'{d.key}: the value function of this text box cuts the text of the line ({cuts[0]!r}): a value too long for the box is shortened silently instead of stopping the fill' if cuts else '', d.where)
+    rep.floor('value functions of text boxes checked for truncation', n_vf, 10)
+    for y in cat.years:
+        for fr in cat.forms(y):
+            if fr.pdf_file and not fr.cls.is_sub_named('InputForm'):
+                seq = fr.class_attrs.get('sequence_no')
+                rep.ob('R19.8', f'{y}/{fr.name}/sequence-number-is-a-number', isinstance(seq, int) and not isinstance(seq, bool),
+                       f'{fr.name}: sequence_no is {seq!r}; the filing order compares these values, so they must all be integers', fr.where)
     rep.floor('form classes with needs_filing class rules', n, 60)
     rep.floor('core rule obligations', sum(v[0] for k, v in rep.rules.items() if k.startswith('K')), 15)
+
+
+def _find_cuts(e, out):
+    """slices of a text value (a str-typed line or input, or text derived from one by str methods)"""
+    from ..lineabs import E
+    if not isinstance(e, E):
+        if isinstance(e, (list, tuple)):
+            for x in e:
+                _find_cuts(x, out)
+        return
+    if e.op == 'slice' and _is_text(e.args[0]):
+        out.append(e)
+    for a in e.args:
+        _find_cuts(a, out)
+
+
+def _is_text(e):
+    from ..lineabs import E
+    if isinstance(e, str):
+        return True
+    if not isinstance(e, E):
+        return False
+    if e.op in ('i', 'v'):
+        return e.ty in ('str', None)
+    if e.op == 'call' and isinstance(e.args[0], str) and e.args[0].startswith('str.') and len(e.args) > 1:
+        return _is_text(e.args[1])
+    if e.op == 'slice':
+        return _is_text(e.args[0])
+    return False
